@@ -108,23 +108,41 @@ impl TransportVisitor for V {
         // Alphabet 4: the listening table. Three ports can be listened on and unlistened in any
         // order; connection requests arrive for those and for a port never listened on.
         let table = self.level == 4;
-        for lp in 0..if table { 3 } else { nports } {
-            menu.push((0, 0, lp, 0)); // listen
+        // Alphabet 5: the life cycle of one connection to greater depth (connect/listen, the
+        // peer's request, response, data, shutdown and reset in any order, reads and sends).
+        let life = self.level == 5;
+        if life {
+            menu.push((0, 0, 0, 0)); // listen
+            menu.push((2, 0, 0, 0)); // connect
+            menu.push((3, 0, 0, 0)); // send
+            menu.push((4, 0, 0, 0)); // recv
+            for oi in [0usize, 1, 2, 3, 4] {
+                menu.push((9, 0, 0, oi)); // REQUEST, RESPONSE, RST, SHUTDOWN, RW
+            }
         }
-        for lp in 0..if table { 3 } else { 1 } {
-            menu.push((1, 0, lp, 0)); // unlisten
+        if !life {
+            for lp in 0..if table { 3 } else { nports } {
+                menu.push((0, 0, lp, 0)); // listen
+            }
+            for lp in 0..if table { 3 } else { 1 } {
+                menu.push((1, 0, lp, 0)); // unlisten
+            }
         }
         if table {
             for lp in 0..4 {
                 menu.push((9, 0, lp, 0)); // REQUEST from the first peer
             }
         }
+        let table = table || life;
         for p in 0..if table { 0 } else { npeers } {
             for lp in 0..nports {
                 menu.push((2, p, lp, 0)); // connect
             }
             menu.push((3, p, 0, 0)); // send
             menu.push((4, p, 0, 0)); // recv
+            if p == 0 {
+                menu.push((4, p, 0, 1)); // recv into an empty buffer
+            }
             menu.push((6, p, 0, 0)); // force_close
         }
         if !table {
@@ -215,8 +233,10 @@ impl TransportVisitor for V {
                     }
                 }
                 4 => {
-                    let mut buf = [0u8; 3];
-                    let r = cm.recv(peer, lport, &mut buf);
+                    let mut buf3 = [0u8; 3];
+                    let cap = if arg == 1 { 0 } else { 3 };
+                    let buf = &mut buf3[..cap];
+                    let r = cm.recv(peer, lport, buf);
                     tag("recv");
                     match m.find(peer, lport) {
                         None => {
@@ -225,7 +245,7 @@ impl TransportVisitor for V {
                             }
                         }
                         Some(i) => {
-                            let k = m.conns[i].buffered.len().min(3);
+                            let k = m.conns[i].buffered.len().min(cap);
                             let want: Vec<u8> = m.conns[i].buffered.drain(..k).collect();
                             m.conns[i].d_read += k as u32;
                             if r != Ok(k) || buf[..k] != want[..] {
